@@ -67,6 +67,7 @@ func runC06(r *fw.Run, p *fw.Program) {
 	c06WrapGuard(r, p)
 	c06ForceEq(r, p)
 	c06TypedNil(r, p)
+	c06Div(r, p)
 	c06LenIdx(r, p)
 	c06Array(r, p)
 	c06ApiSign(r, p)
